@@ -3411,6 +3411,12 @@ class DynamicTimeSeriesBucket(DynamicBucket):
 
     def assess(self, example):
         seq_len = self.len_key(example)
+        if self.max_total_size is not None and (
+                (len(self.data) + 1) * max(self.max_len, seq_len)
+                > self.max_total_size
+        ):
+            # Adding this (longer) example would exceed max_total_size.
+            return False
         return self.lower_bound <= seq_len <= self.upper_bound
 
     def _append(self, example):
